@@ -148,4 +148,10 @@ theorem stale_map_quirk :
     unpackMessage ((startBuilder zeroHeader true).run staleOps).1.bytes = .error .tooManyPtr := by
   constructor <;> decide +kernel
 
+/-- Known finding `header-4bit-overflow` (literal): without the hypothesis `rCode < 16` the header
+round trip fails - RCode 16 (BADVERS) comes back as RCode 0 with CheckingDisabled set. -/
+theorem header_overflow_false :
+    headerOfBits zeroHeader.id ({ zeroHeader with rCode := 16 } : Header).bits ≠ { zeroHeader with rCode := 16 } := by
+  decide
+
 end NetVerif.Proofs.C36
